@@ -319,7 +319,7 @@ theorem admit_one {C L : Nat} (p : Nat) (hp : p < C) (hL : 0 < L) :
   exact ((Reach.init.step _ _ s1).step _ _ s2 |>.step _ _ s3).step _ _ s4
 
 /-- fill the pool sequentially to `n ≤ C` -/
-theorem fill {C L : Nat} (hL : 0 < L) (n : Nat) (hn : n ≤ C) :
+theorem reach_fill {C L : Nat} (hL : 0 < L) (n : Nat) (hn : n ≤ C) :
     Reach (AStep C L) (Srv.init L) ⟨n, 0, 0, 0, L, false⟩ := by
   induction n with
   | zero => exact Reach.init
